@@ -6,6 +6,7 @@
 -/
 import PopsModel.Driver.Util
 import PopsModel.Model.KernRadial
+import PopsModel.Model.KernElig
 namespace Pops.Driver.KernEng
 open Pops Pops.Driver
 
@@ -178,23 +179,36 @@ def sgnI (x : Int) : Int := if x > 0 then 1 else if x < 0 then -1 else 0
 def q? (s : String) : Option Rat := parseRat? s
 def qf? (s : String) : Option (Rat × Float) := (parseRat? s).map fun q => (q, ratToFloat q)
 
+/-- `kern.name`: the property's documented list (`kernelSpellings`, theorem `C13_names`) judged on
+    the OBSERVED outcome: a documented spelling must be accepted as the kernel the list gives, an
+    undocumented spelling must be rejected, an accepted spelling must name the kernel it is mapped to.
+    Every disagreement about acceptance or about the kernel is a PROPFAIL; only the kind of the
+    exception for an undocumented spelling is left to the model comparison. -/
 def handleName (inp obs : List String) : String :=
   match inp with
   | [s] =>
     let s := decodeName s
     let model := kernelTypeFromString s
+    let doc := documentedKernel? s
     match obs with
     | ["ok", t] =>
       match typeOfTok? t with
       | some k =>
         if !decide (NamesKernel s k) then s!"PROPFAIL C13 names spelling '{s}' accepted as {t}, which it does not name"
-        else if model = .ok k then "ok" else s!"MISMATCH kern.name model={repr model}"
+        else match doc with
+          | none => s!"PROPFAIL C13 names undocumented spelling '{s}' accepted (as {t})"
+          | some kd =>
+            if kd ≠ k then s!"PROPFAIL C13 names documented spelling '{s}' of {tokOfType kd} accepted as {t}"
+            else if model = .ok k then "ok" else s!"MISMATCH kern.name model={repr model}"
       | none => "BADLINE"
     | [e] =>
-      if DispersalKernelType.all.any (fun k => k.name = s) then s!"PROPFAIL C13 names canonical name '{s}' rejected"
-      else match model with
-        | .error k => if errTok k = e then "ok" else s!"MISMATCH kern.name model={errTok k}"
-        | .ok k => s!"MISMATCH kern.name model=ok {tokOfType k}"
+      if !e.startsWith "err:" then "BADLINE"
+      else if DispersalKernelType.all.any (fun k => k.name = s) then s!"PROPFAIL C13 names canonical name '{s}' rejected"
+      else match doc with
+        | some kd => s!"PROPFAIL C13 names documented spelling '{s}' of {tokOfType kd} rejected with {e}"
+        | none => match model with
+          | .error k => if errTok k = e then "ok" else s!"MISMATCH kern.name model={errTok k}"
+          | .ok k => s!"MISMATCH kern.name model=ok {tokOfType k}"
     | _ => "BADLINE"
   | _ => "BADLINE"
 
@@ -203,18 +217,26 @@ def handleDir (inp obs : List String) : String :=
   | [s] =>
     let s := decodeName s
     let model := directionFromString s
+    let doc := documentedDirection? s
     match obs with
     | ["ok", t] =>
       match dirOfTok? t with
       | some d =>
         if !decide (NamesDirection s d) then s!"PROPFAIL C13 names direction spelling '{s}' accepted as {t}, which it does not name"
-        else if model = .ok d then "ok" else s!"MISMATCH kern.dir model={repr model}"
+        else match doc with
+          | none => s!"PROPFAIL C13 names undocumented direction spelling '{s}' accepted (as {t})"
+          | some dd =>
+            if dd ≠ d then s!"PROPFAIL C13 names documented direction spelling '{s}' of {dd.name} accepted as {t}"
+            else if model = .ok d then "ok" else s!"MISMATCH kern.dir model={repr model}"
       | none => "BADLINE"
     | [e] =>
-      if Direction.all.any (fun d => d.name = s) then s!"PROPFAIL C13 names canonical direction '{s}' rejected"
-      else match model with
-        | .error k => if errTok k = e then "ok" else s!"MISMATCH kern.dir model={errTok k}"
-        | .ok d => s!"MISMATCH kern.dir model=ok {d.name}"
+      if !e.startsWith "err:" then "BADLINE"
+      else if Direction.all.any (fun d => d.name = s) then s!"PROPFAIL C13 names canonical direction '{s}' rejected"
+      else match doc with
+        | some dd => s!"PROPFAIL C13 names documented direction spelling '{s}' of {dd.name} rejected with {e}"
+        | none => match model with
+          | .error k => if errTok k = e then "ok" else s!"MISMATCH kern.dir model={errTok k}"
+          | .ok d => s!"MISMATCH kern.dir model=ok {d.name}"
     | _ => "BADLINE"
   | _ => "BADLINE"
 
@@ -303,6 +325,11 @@ def handleUniformSample (inp obs : List String) : String :=
     else "ok"
   | _, _ => "BADLINE"
 
+/-- `kern.mix <src> ...`: src = `stub` (stub kernels, eligibility by parity), `factory` (neighbour kernels
+    through the factory), `network` (anthropogenic = teleporting network kernel: eligible iff the source
+    cell has a node; the `eligible` input is the harness's node table) or `uniform` (anthropogenic = uniform
+    kernel, eligible everywhere). Property predicate `mixUsesAnthropogenic` (`C13_mix`, `C13_eligibility`)
+    on the observed decision first. -/
 def handleMix (inp obs : List String) : String :=
   match inp, obs with
   | [src, en, el, u, p, row, col], [which, asked, ca, cn, gen, _r, _c] =>
@@ -312,7 +339,11 @@ def handleMix (inp obs : List String) : String :=
       let eligible : Bool := el = "1"
       let anthro := mixUsesAnthropogenic enabled eligible u p
       let obsAnthro := which = "anthro"
-      if which ≠ "anthro" && which ≠ "natural" then "BADLINE"
+      if which.startsWith "err:" then
+        s!"PROPFAIL C13 mix enabled={enabled} eligible={eligible} u={u} percent_natural={p}: the call from ({row},{col}) was rejected with {which}"
+      else if which ≠ "anthro" && which ≠ "natural" then
+        (if src = "stub" || src = "factory" then "BADLINE"
+         else s!"PROPFAIL C13 mix enabled={enabled} eligible={eligible} u={u} percent_natural={p}: target ({_r},{_c}) is neither kernel's")
       else if obsAnthro ≠ anthro then
         s!"PROPFAIL C13 mix enabled={enabled} eligible={eligible} u={u} percent_natural={p}: used {which}"
       else if src = "stub" && asked ≠ "asked=none" && asked ≠ s!"asked={row},{col}" then
@@ -321,9 +352,80 @@ def handleMix (inp obs : List String) : String :=
         let draws := mixBernoulliDraws enabled eligible
         let expAsked := if src = "stub" then (if mixAsksEligibility enabled then s!"asked={row},{col}" else "asked=none") else "asked=na"
         let expGen := if src = "stub" then (if anthro then "gen=ant" else "gen=nat") else "gen=na"
-        if ca = s!"calls_ant={draws}" && cn = "calls_nat=0" && asked = expAsked && gen = expGen then "ok"
+        -- a real anthropogenic kernel (network, uniform) draws from the anthropogenic stream too
+        let callsOK : Bool :=
+          if (src = "network" || src = "uniform") && anthro then
+            (match (kv? "calls_ant" ca).bind parseNat? with | some n => decide (draws ≤ n) | none => false)
+          else ca == s!"calls_ant={draws}"
+        if callsOK && cn = "calls_nat=0" && asked = expAsked && gen = expGen then "ok"
         else s!"MISMATCH kern.mix model={expAsked} calls_ant={draws} calls_nat=0 {expGen}"
     | _, _, _, _ => "BADLINE"
+  | _, _ => "BADLINE"
+
+/-- The class a `who` token of `kern.elig` / `kern.supports` stands for (`wrap-<class>`: the same
+    class behind the virtual interface; `network-walk`: the walking constructor of the network kernel). -/
+def classOfWho? (who : String) : Option KernelClass :=
+  let w := if who.startsWith "wrap-" then (who.drop 5).toString else who
+  if w = "network-walk" then some .network else KernelClass.ofName? w
+
+/-- `kern.elig <who> <row> <col> <hasnode> => <0|1>`: `is_cell_eligible` of a kernel object.
+    Property: only the network kernel restricts source cells, to the cells holding a node; the
+    switch kernel answers for the kernel it selects, at the SAME (row, col) (`C13_eligibility`). -/
+def handleElig (inp obs : List String) : String :=
+  match inp, obs with
+  | [who, row, col, hn], [o] =>
+    if o.startsWith "err:" then s!"PROPFAIL C13 eligibility {who} at ({row},{col}): is_cell_eligible threw {o}" else
+    if (hn ≠ "0" && hn ≠ "1") || (o ≠ "0" && o ≠ "1") then "BADLINE" else
+    let hasNode : Bool := hn == "1"
+    let want? : Option Bool :=
+      match who.splitOn ":" with
+      | ["switch", t, _stoch] => (typeOfTok? t).map fun t => switchEligible t hasNode
+      | [_] => (classOfWho? who).map fun c => classEligible c hasNode
+      | _ => none
+    match want? with
+    | none => "BADLINE"
+    | some want =>
+      if (o = "1") = want then "ok"
+      else s!"PROPFAIL C13 eligibility {who} at ({row},{col}), node in the cell: {hasNode}: is_cell_eligible = {o}, must be {if want then 1 else 0}"
+  | _, _ => "BADLINE"
+
+/-- `kern.supports <who> <Type> => <0|1>`: `supports_kernel(type)`. Property (`C13_supports_kernel`):
+    a class supports exactly the kernel types its call operator serves. -/
+def handleSupports (inp obs : List String) : String :=
+  match inp, obs with
+  | [who, t], [o] =>
+    match classOfWho? who, typeOfTok? t with
+    | some c, some t =>
+      if o ≠ "0" && o ≠ "1" then "BADLINE"
+      else if (o = "1") = classSupports c t then "ok"
+      else s!"PROPFAIL C13 supports_kernel {who}::supports_kernel({tokOfType t}) = {o}, must be {if classSupports c t then 1 else 0}"
+    | _, _ => "BADLINE"
+  | _, _ => "BADLINE"
+
+/-- Node table of the harness's test network for the cells of `ELIG_CELLS`. -/
+def eligCellsHasNode : List Bool := [true, true, false, false, false, false, false, false]
+
+/-- `kern.built <natural|anthro> <name> => <class> sup=<b> elig=<bits>`: the kernel a factory built
+    for a configuration name: it supports the type its name maps to (unless no class serves that
+    type there, `builtMustSupport`), and it is eligible exactly where its class is. -/
+def handleBuilt (inp obs : List String) : String :=
+  match inp, obs with
+  | [which, name], [cls, sup, elig] =>
+    let name := decodeName name
+    match KernelClass.ofName? cls, kv? "sup" sup, kv? "elig" elig with
+    | some c, some sup, some bits =>
+      if which ≠ "natural" && which ≠ "anthro" then "BADLINE" else
+      match kernelTypeFromString name with
+      | .error _ => "MISMATCH kern.built model=name rejected"
+      | .ok t =>
+        let wantElig := String.ofList (eligCellsHasNode.map fun hn => if classEligible c hn then '1' else '0')
+        if bits ≠ wantElig then
+          s!"PROPFAIL C13 eligibility built {cls} kernel for '{name}': is_cell_eligible over the test cells = {bits}, must be {wantElig}"
+        else if builtMustSupport (which = "anthro") t && sup ≠ "1" then
+          s!"PROPFAIL C13 supports_kernel {which} kernel built for '{name}' ({cls}) answers supports_kernel({tokOfType t}) = {sup}"
+        else if sup = (if classSupports c t then "1" else "0") then "ok"
+        else s!"MISMATCH kern.built model=sup={if classSupports c t then 1 else 0}"
+    | _, _, _ => "BADLINE"
   | _, _ => "BADLINE"
 
 def handleCtor (inp obs : List String) : String :=
@@ -491,7 +593,12 @@ def handleSwitch (inp obs : List String) : String :=
       else
         let expElig := s!"elig={if switchEligible t true then 1 else 0}{if switchEligible t false then 1 else 0}"
         let expSup := s!"supports={if switchSupports t then 1 else 0}"
-        if member = name && rest = [expElig, expSup] then "ok" else s!"MISMATCH kern.switch model={name} {expElig} {expSup}"
+        match rest with
+        | [oe, os] =>
+          if oe ≠ expElig then s!"PROPFAIL C13 eligibility switch kernel of type {tokOfType t}: {oe} at a cell with / without a node, must be {expElig}"
+          else if os ≠ expSup then s!"PROPFAIL C13 supports_kernel switch::supports_kernel({tokOfType t}): {os}, must be {expSup}"
+          else if member = name then "ok" else s!"MISMATCH kern.switch model={name} {expElig} {expSup}"
+        | _ => "BADLINE"
     | none => "BADLINE"
   | _, _ => "BADLINE"
 
@@ -517,11 +624,24 @@ def hexIsRat (tok : String) (key : String) (q : Rat) : Bool :=
   | some f => FloatFn.toRat? f == some q
   | none => false
 
+def hexRat? (key tok : String) : Option Rat := ((kv? key tok).bind parseHexFloat?).bind FloatFn.toRat?
+
 def vmTok? (key tok : String) : Option (Float × Nat) := do
   let v ← kv? key tok
   match v.splitOn ":" with
   | [a, b] => do let f ← parseHexFloat? a; let n ← parseNat? b; some (f, n)
   | _ => none
+
+/-- C15 ("teleporting / walking / snapping as requested, cost between the configured bounds"): the
+    flags and the distance bounds of a built network kernel against the configuration
+    (`ConfigWiring`, theorem `C15_network_movement_wiring`), on the OBSERVED object. -/
+def networkWiringVerdict (c : KernelConfig) (tp jp omn omx : String) : Option String :=
+  match kv? "teleport" tp, kv? "jump" jp, hexRat? "min" omn, hexRat? "max" omx with
+  | some t, some j, some mn, some mx =>
+    let w : NetworkWiring := { teleport := t = "1", jump := j = "1", min := mn, max := mx }
+    if decide (ConfigWiring c w) then none
+    else some s!"PROPFAIL C15 network_movement_wiring network_movement='{c.networkMovement}' min={c.networkMinDistance} max={c.networkMaxDistance}: built kernel has {tp} {jp} min={mn} max={mx}"
+  | _, _, _, _ => some "PROPFAIL C15 network_movement_wiring unreadable network kernel description"
 
 /-- One built kernel description against the model's `KernelDesc`; `named` is the kernel type the
     configuration string names (for the property predicate "names map to the kernels they name"). -/
@@ -541,11 +661,16 @@ def checkBuilt (c : KernelConfig) (x : Float) (m : KernelDesc) (obs : List Strin
     if ot ≠ tokOfType t then s!"PROPFAIL C13 factory deterministic kernel of type {ot}, configuration names {tokOfType t}"
     else if hexIsRat oew "ew" ew && hexIsRat ons "ns" ns then "ok"
     else s!"MISMATCH kern.factory deterministic model=ew {ew} ns {ns}"
-  | .networkTeleport, ["network", tp, _, _, _] =>
-    if tp = "teleport=1" then "ok" else "MISMATCH kern.factory network model=teleport"
+  | .networkTeleport, ["network", tp, jp, omn, omx] =>
+    match networkWiringVerdict c tp jp omn omx with
+    | some v => "MISMATCH kern.factory network model=teleport ;; " ++ v
+    | none => if tp = "teleport=1" then "ok" else "MISMATCH kern.factory network model=teleport"
   | .networkWalk mn mx jump, ["network", tp, jp, omn, omx] =>
-    if tp = "teleport=0" && jp = s!"jump={if jump then 1 else 0}" && hexIsRat omn "min" mn && hexIsRat omx "max" mx then "ok"
-    else s!"MISMATCH kern.factory network model=walk jump={jump} min={mn} max={mx}"
+    match networkWiringVerdict c tp jp omn omx with
+    | some v => s!"MISMATCH kern.factory network model=walk jump={jump} min={mn} max={mx} ;; " ++ v
+    | none =>
+      if tp = "teleport=0" && jp = s!"jump={if jump then 1 else 0}" && hexIsRat omn "min" mn && hexIsRat omx "max" mx then "ok"
+      else s!"MISMATCH kern.factory network model=walk jump={jump} min={mn} max={mx}"
   | .radial ew ns t scale dir kappa shape, ["radial", oew, ons, ot, samp, pdf, same, vmA, vmB] =>
     if !(hexIsRat oew "ew" ew && hexIsRat ons "ns" ns) then
       s!"PROPFAIL C13 factory_resolution radial kernel built with {oew} {ons}, configuration has ew={ew} ns={ns}"
@@ -628,8 +753,6 @@ def handleFactory (inp obs : List String) : String :=
   | _ => "BADLINE"
 
 /-! ### C17: the kernel of the pest overpopulation move -/
-
-def hexRat? (key tok : String) : Option Rat := ((kv? key tok).bind parseHexFloat?).bind FloatFn.toRat?
 
 /-- The 16 configuration tokens of a `kern.overpop` line: `KernelConfig` and the leaving scale coefficient. -/
 def overpopConfig? (toks : List String) : Option (KernelConfig × Rat) :=
@@ -736,6 +859,9 @@ def handle (st : State) (cmd : String) (inp obs : List String) : State × String
     | "kern.uniform.cover" => handleUniformCover inp obs
     | "kern.uniform.sample" => handleUniformSample inp obs
     | "kern.mix" => handleMix inp obs
+    | "kern.elig" => handleElig inp obs
+    | "kern.supports" => handleSupports inp obs
+    | "kern.built" => handleBuilt inp obs
     | "kern.ctor" => handleCtor inp obs
     | "kern.sampler" => handleSampler inp obs
     | "kern.random" => handleRandom inp obs
